@@ -3,7 +3,7 @@ M-text: executable model of
   luahelper-lsp/langserver/lspcommon/file_cache.go  offsetForStartAndEnd, ApplyContentChanges
   luahelper-lsp/langserver/lspcommon/util.go        OffsetForPosition
   luahelper-lsp/langserver/textdocument_file_request.go  (cache effect of open/change/save/close)
-written branch by branch after the Go code (quirks included).  Core Lean only.
+written branch by branch after the Go code (after the repair that made the position mapping follow LSP).  Core Lean only.
 -/
 namespace LuaHelper.Text
 
@@ -36,58 +36,45 @@ inductive OffRes where
   | err
 deriving Repr, DecidableEq, Inhabited
 
-/-- After the loop of `offsetForStartAndEnd` (no more bytes). -/
-def finish (sp ep : Pos) (line col off : Nat) (start : Option Nat) : OffRes :=
-  match start with
-  | some s => if line = ep.line ∧ col = ep.ch then .ok s off else .err
-  | none =>
-    if line = sp.line ∧ col = sp.ch ∧ line = ep.line ∧ col = ep.ch then .ok off off else .err
+/-- first loop of `OffsetForPosition`: skip `l` lines (a line ends with LF, CR LF or CR); `none` = the
+    document has fewer lines.  Returns the rest of the document and the bytes consumed. -/
+def skipLines : Bytes → Nat → Nat → Option (Bytes × Nat)
+  | r, 0, off => some (r, off)
+  | [], _ + 1, _ => none
+  | c :: r, l + 1, off =>
+    if c = 10 then skipLines r l (off + 1)
+    else if c = 13 then
+      if r.head? = some 10 then skipLines r.tail l (off + 2) else skipLines r l (off + 1)
+    else skipLines r (l + 1) (off + 1)
+termination_by r => r.length
+decreasing_by all_goals (first | (simp [List.length_tail]; done) | (simp [List.length_tail]; omega) | omega)
 
-/-- The loop of `offsetForStartAndEnd`.  `rest` is `contents[index:]`; `off` = `index` = `offset`
-    (the Go code keeps them equal); `start` = `some startOffset` iff `startFlag`. -/
-def scan (sp ep : Pos) (rest : Bytes) (line col off : Nat) (start : Option Nat) : OffRes :=
-  match rest with
-  | [] => finish sp ep line col off start
-  | c :: tl =>
-    -- first `if !startFlag`
-    let start1 : Option Nat :=
-      match start with
-      | some s => some s
-      | none => if line = sp.line ∧ col = sp.ch then some off else none
-    match start1 with
-    | none =>
-      if (line = sp.line ∧ col > sp.ch) ∨ line > sp.line then .err
-      else
-        let n := stepLen c
-        if c = 10 then scan sp ep (tl.drop (n - 1)) (line + 1) 0 (off + n) none
-        else scan sp ep (tl.drop (n - 1)) line (col + 1) (off + n) none
-    | some s =>
-      if line = ep.line ∧ col = ep.ch then .ok s off
-      else if (line = ep.line ∧ col > ep.ch) ∨ line > ep.line then .err
-      else
-        let n := stepLen c
-        if c = 10 then scan sp ep (tl.drop (n - 1)) (line + 1) 0 (off + n) (some s)
-        else scan sp ep (tl.drop (n - 1)) line (col + 1) (off + n) (some s)
-termination_by rest.length
-decreasing_by all_goals (simp [List.length_drop]; omega)
+/-- UTF-16 code units of the character that starts with byte `c` -/
+def unitsOf (c : UInt8) : Nat := if c > 127 ∧ leadOnes c = 4 then 2 else 1
 
-def offsetForStartAndEnd (doc : Bytes) (sp ep : Pos) : OffRes := scan sp ep doc 0 0 0 none
+/-- second loop: walk `rem` UTF-16 units along the line; stops at a line end, at the end of the document
+    and before a character that needs more units than are left (inside a surrogate pair) -/
+def walk : Bytes → Nat → Nat → Nat
+  | [], _, off => off
+  | _ :: _, 0, off => off
+  | c :: tl, rem + 1, off =>
+    if c = 10 ∨ c = 13 then off
+    else if rem + 1 < unitsOf c then off
+    else walk (tl.drop (stepLen c - 1)) (rem + 1 - unitsOf c) (off + stepLen c)
+termination_by r => r.length
+decreasing_by all_goals (first | (simp [List.length_drop]; done) | (simp [List.length_drop]; omega) | omega)
 
-/-- `OffsetForPosition` (lspcommon/util.go): same scan with one position. -/
-def scan1 (p : Pos) (rest : Bytes) (line col off : Nat) : Option Nat :=
-  match rest with
-  | [] => if line = p.line ∧ col = p.ch then some off else none
-  | c :: tl =>
-    if line = p.line ∧ col = p.ch then some off
-    else if (line = p.line ∧ col > p.ch) ∨ line > p.line then none
-    else
-      let n := stepLen c
-      if c = 10 then scan1 p (tl.drop (n - 1)) (line + 1) 0 (off + n)
-      else scan1 p (tl.drop (n - 1)) line (col + 1) (off + n)
-termination_by rest.length
-decreasing_by all_goals (simp [List.length_drop]; omega)
+/-- `OffsetForPosition` (lspcommon/util.go) -/
+def offsetForPosition (doc : Bytes) (p : Pos) : Option Nat :=
+  match skipLines doc p.line 0 with
+  | none => none
+  | some (r, off) => some (min (walk r p.ch off) doc.length)
 
-def offsetForPosition (doc : Bytes) (p : Pos) : Option Nat := scan1 p doc 0 0 0
+/-- `offsetForStartAndEnd` (file_cache.go): both ends through `OffsetForPosition`, end before start is an error -/
+def offsetForStartAndEnd (doc : Bytes) (sp ep : Pos) : OffRes :=
+  match offsetForPosition doc sp, offsetForPosition doc ep with
+  | some s, some e => if e < s then .err else .ok s e
+  | _, _ => .err
 
 /-- One content change.  `range = none` ⇒ full replacement (the Go test `Range == nil &&
     RangeLength == 0`; conformant clients never send a rangeLength without a range). -/
